@@ -338,6 +338,16 @@ void LayoutSession::run() {
         } else if (o == "runOnce") {
             e2 = guarded([&] { alg->runOnce(op.boolean("x", true), op.boolean("y", true)); });
             if (e2.empty()) { ranOnceSinceProjection = true; probe("layout.runOnce"); }
+        } else if (o == "setExempt") {
+            // the client changes (or withdraws) the overlap exemptions on the live layout object
+            if (!avoidOverlaps || maj) continue;
+            std::vector<std::vector<unsigned>> groups;
+            for (auto &g : op["groups"].a) { std::vector<unsigned> v; for (auto &k : g.a) if (k.i() < (long)rs.size()) v.push_back((unsigned)k.i()); if (v.size() >= 2) groups.push_back(v); }
+            e2 = guarded([&] { if (groups.empty() && op.boolean("default_arg", true)) alg->setAvoidNodeOverlaps(true); else alg->setAvoidNodeOverlaps(true, groups); });
+            exempt = groups;
+            madeFeasible = false; completedIteration = false;      // C08 is judged again only after a new makeFeasible() + run()
+            probe("layout.exemptions-changed");
+            if (e2.empty()) { yield("op"); continue; }
         } else if (o == "output") {
             for (auto &f : op["faults"].a) if (f.has("fopen")) { SimFS::fail_next_opens = 1; SimFS::fail_errno = 28; }
             e2 = guarded([&] { alg->outputInstanceToSVG("simfs-layout"); });
@@ -528,7 +538,7 @@ Json genLayoutSession(Rng &r, const std::string &tier, int flavour /*0 constrain
     cfg.set("avoidOverlaps", overlaps);
     bool major = flavour == 3;
     if (major) { cfg.set("majorization", true); cfg.set("maxiter", (long)r.pick(std::vector<int>{10, 30})); }
-    if (overlaps && !clustered && r.chance(0.3) && n >= 3) { Json ex = Json::arr(); Json g = Json::arr(); int a = (int)r.below(n), b = (int)r.below(n); if (a != b) { g.push(a); g.push(b); ex.push(g); cfg.set("exempt", ex); } }
+    if (overlaps && !clustered && r.chance(0.4) && n >= 3) { Json ex = Json::arr(); Json g = Json::arr(); int a = (int)r.below(n), b = (int)r.below(n); if (a != b) { g.push(a); g.push(b); if (r.chance(0.3)) { int c3 = (int)r.below(n); if (c3 != a && c3 != b) g.push(c3); } ex.push(g); cfg.set("exempt", ex); } }
     std::string style = std::string(flavour == 3 ? "majorization" : overlaps ? "overlaps" : "constraints") + (clustered ? fmt("+%zuclusters", clusters.size()) : "");
     cfg.set("style", style);
     s.set("cfg", cfg);
@@ -549,6 +559,18 @@ Json genLayoutSession(Rng &r, const std::string &tier, int flavour /*0 constrain
         ops.push(o);
     };
     bool mf = flavour == 1 ? true : flavour == 3 ? false : r.chance(0.5);
+    if (overlaps && !clustered && flavour != 3 && cfg.has("exempt") && r.chance(0.7)) {
+        // history on the live object: lay out with exemptions, then withdraw or replace them and lay out again
+        { Json o = Json::obj(); o.set("op", "makeFeasible"); ops.push(o); }
+        runOp();
+        Json o = Json::obj(); o.set("op", "setExempt");
+        Json groups = Json::arr();
+        if (r.chance(0.3)) { Json g2 = Json::arr(); int a = (int)r.below(n), b = (int)r.below(n); if (a != b) { g2.push(a); g2.push(b); groups.push(g2); } }
+        o.set("groups", groups); o.set("default_arg", r.chance(0.7));
+        ops.push(o);
+        mf = true;
+        { Json o2 = Json::obj(); o2.set("op", "makeFeasible"); ops.push(o2); }
+    } else
     if (mf) { Json o = Json::obj(); o.set("op", "makeFeasible"); ops.push(o); }
     int runs = r.range(1, 3);
     for (int k = 0; k < runs; k++) {
